@@ -552,6 +552,29 @@ KNOWN = [
     {"key": "csv-tiny-number", "desc": "number below ~1e-293 read back wrong", "case": ["tabrt 1 78 n:1.2345678901234e-300"]},
 ]
 
-TECHNIQUE = "Lean 4 theorems (induction over lines / bytes of executable models of reader and writer) + differential correspondence check"
-LEVEL_TEXT = "(filled in below)"
-LEVEL_NOTE = "(filled in below)"
+TECHNIQUE = ("Lean 4 theorems (induction over lines / bytes, invariants over set/write histories) about executable models of the "
+             "IniFile reader/writer and the TabularDataFile row writer/parser + differential correspondence check against the real library")
+LEVEL_TEXT = ("Proved in Lean 4 about the model that the driver runs against the library on every check: (1) ini_read_spec: for every "
+              "document of the INI grammar (sections, key = value with optional blanks, #/; comments, blank lines), LF or CRLF, with or "
+              "without final line end, a fresh IniFile holds exactly the document's key/value relation; (2) ini_persist: for every such "
+              "document and every sequence (any length) of set(\"section/key\", value) calls on existing keys, new keys, new sections and "
+              "the section-less group, interleaved with any number of explicit write() calls and ended by the destructor's write, a "
+              "fresh IniFile on the resulting file returns for every section/key the last value set, else the document's value; "
+              "(3) ini_write_in_bounds: for any file bytes or a missing file and any set / operator[]= / write history with any byte "
+              "strings, write never reads outside _lines; (4) ini_order: for any object state the written text contains all original "
+              "lines in order, non-entry lines byte for byte, entry lines respelled key=value with the same key, new lines only inserted; "
+              "(5) csv_row_roundtrip: for every separator and every non-empty row of strings of any bytes (separators, quotes, blanks, "
+              "empty) and number texts, parseRow(writeRow r) = r cell for cell; (6) csv_number_exact_Q: every number text "
+              "[-]digits[.digits][(e|E)[+|-]digits] is accepted by myisnumber and the rational y1*10^exp computed by myatof before its "
+              "floating-point multiplication equals the number spelled. The models are tied to src/IniFile.cpp and "
+              "src/TabularDataFile.cpp by the correspondence check (INI histories incl. texts outside the grammar, whole tables through "
+              "the real files, arbitrary CSV texts, myatof on every decimal exponent) and by independent python oracles.")
+LEVEL_NOTE = ("Validated by the correspondence check only (no theorem): the table level of TabularDataFile (header line, separator "
+              "sniffing, data() loop over the file, BOM handling, type inference per cell) -- the row-level round trip and the number "
+              "recognition/value theorems are its proved core; the last step of the 15-digit clause (double(y1)*pow(10.0,exp) printed "
+              "with %.15g gives the written digits) is floating point, carried by the listed libc/IEEE assumptions and compared on "
+              "every number of every run (model prints the exact decimal with its own %.15g formatter); IniFile::values(), "
+              "sectionNames(), plain names without '/', operator[]= and reopen are in the model and in K but the persist theorem is stated "
+              "for set(\"section/key\") and const operator[]; keys outside KeyOK (containing '/', '=' or starting below '0') and values with "
+              "outer blanks are K-only. Known finding csv-tiny-number (|x| < ~1e-293 read back wrong) is excluded from the generator and "
+              "probed. Trusted: Lean kernel, harness/c18.cpp, the generator; libc fgets/feof, strtod, snprintf %.15g, pow as listed.")
